@@ -81,11 +81,34 @@ func (fs *FileSystem) Store(bom *sbom.Document, opts *StoreOptions) error {
 		return fmt.Errorf("there is already an entry for the specified document (and NoClobber = true)")
 	}
 
-	if err := os.WriteFile(filepath.Join(fs.Options.Path, filename), out, os.FileMode(0o644)); err != nil {
+	if err := writeFileAtomic(filepath.Join(fs.Options.Path, filename), out, os.FileMode(0o644)); err != nil {
 		return fmt.Errorf("writing data to disk: %w", err)
 	}
 
 	return nil
+}
+
+// writeFileAtomic writes data to a temporary file in the same directory and
+// renames it to path, to ensure the entry is never left partially written.
+func writeFileAtomic(path string, data []byte, perm os.FileMode) error {
+	tmp, err := os.CreateTemp(filepath.Dir(path), filepath.Base(path)+".tmp-*")
+	if err != nil {
+		return err
+	}
+	defer os.Remove(tmp.Name()) //nolint:errcheck // the file is gone when renamed
+
+	if _, err := tmp.Write(data); err != nil {
+		tmp.Close() //nolint:errcheck,gosec // returning the write error
+		return err
+	}
+	if err := tmp.Chmod(perm); err != nil {
+		tmp.Close() //nolint:errcheck,gosec // returning the chmod error
+		return err
+	}
+	if err := tmp.Close(); err != nil {
+		return err
+	}
+	return os.Rename(tmp.Name(), path)
 }
 
 // Retrieve implements the storage backend Retrieve interface. It looks for a
